@@ -34,7 +34,7 @@ def make_case(rng, tier):
     if rng.random() < 0.25:
         pts += G.collision_twins(rng, names, vals)
     return {"kind": "eval", "family": fam, "spec": S.to_json(t), "points": [S.point_to_json(p) for p in pts],
-            "mode": G.share(rng, t)}
+            "mode": "dag" if fam == "shared" else G.share(rng, t)}
 
 
 def run_shard(ctx):
